@@ -14,3 +14,12 @@ def rejectOrUnparsedOk (outcome : String) (unchanged : Bool) (hasData : Bool) : 
   (outcome == "decryption" || outcome == "parsing" || outcome == "statusonly") && unchanged && !hasData
 
 end IsoMdl.Spec
+
+namespace IsoMdl.Spec
+/-- Sequence oracle (safety): an accepted ciphertext must come from the peer (`dirOk`), from this
+session (`sessOk`), be unmodified, carry a counter `n` above everything accepted before, and may
+skip at most as many counter values as ciphertexts were rejected since (a rejected attempt burns
+one value; nothing else may). -/
+def acceptWindowOk (accepted dirOk sessOk tampered : Bool) (n maxAcc rejSince : Nat) : Bool :=
+  !accepted || (dirOk && sessOk && !tampered && maxAcc < n && n ≤ maxAcc + 1 + rejSince)
+end IsoMdl.Spec
